@@ -54,9 +54,20 @@ def _dim_str(d):
     return "?" if d is None or d == "" else str(d)
 
 
-def _inferred_dim(d):
-    """What spox's type inference leaves of a dimension of an *operator output*: ONNX-invented names go."""
-    return None if isinstance(d, str) and (d == "" or d.startswith("unk__")) else d
+def _inferred_dim(d, operand_dims=()):
+    """What spox's type inference leaves of a dimension of an *operator output* (since fix c899b77): a
+    `unk__*` name is stripped only when ONNX shape inference invented it — a name that occurs in a type of
+    one of the node's operands is the caller's own and is kept, whatever it looks like. `""` never was a
+    name (ONNX's spelling of "unknown"; spox turns it into None at construction)."""
+    if not isinstance(d, str):
+        return d
+    if d == "":
+        return None
+    if d.startswith("unk__") and d not in operand_dims:
+        return None
+    return d
+
+
 SCALAR = {"e": "f32", "d": []}
 
 
@@ -561,7 +572,9 @@ def formal_nodes(prog):
 def abstract_type(prog, i):
     nd = index(prog).get(i) or formal_nodes(prog)[i]
     if nd["k"] == "tcast":
-        return {"e": "f32", "d": [_inferred_dim(d) for d in abstract_type(prog, nd["a"])["d"]]}
+        src = abstract_type(prog, nd["a"])["d"]   # Cast(argument): every output dim is an operand dim
+        given = [x for x in src if isinstance(x, str) and x != ""]
+        return {"e": "f32", "d": [_inferred_dim(d, given) for d in src]}
     return nd["ty"] if nd["k"] in ("arg", "init", "formal") else dict(SCALAR)
 
 
